@@ -12,6 +12,7 @@ From Coq Require Import List Arith Bool NArith.
 From PV Require Import Model.Registry Proofs.RegistryFacts Proofs.RegistryProofs Proofs.RegistryNestProofs.
 From PV Require Import Model.RegistryConc Proofs.RegistryConcProofs Model.RegisterHelpers Proofs.RegisterHelpersProofs.
 From PV Require Import Model.RegistrySection Proofs.RegistrySectionProofs.
+From PV Require Import Model.RegistryDecode Proofs.RegistryDecodeProofs.
 From Coq Require Import String.
 Import ListNotations.
 
@@ -272,4 +273,82 @@ Example C18_section_examples :
   section_ok_b (mkSec FStrMap [TkName false; TkAbsent; TkAbsent] false) = false /\
   section_ok_b (mkSec FUntypedMap [TkName true; TkAbsent; TkAbsent] true) = false /\
   parse_section (mkSec FStrMap [TkNonString; TkName true; TkAbsent] false) = inl SeTypeValue.
+Proof. vm_compute. repeat split. Qed.
+
+(* ---- the user's settings: the fill the config hooks build from a section (Model/RegistryDecode.v) ---- *)
+
+(* mapstructure as the code goes (each field of the target takes the value under its name and marks
+   the key used; ErrorUnused) leaves no key unused exactly when every key of the section names a
+   field of the config struct, and writes the default overlaid by the settings; hence the fill
+   fails exactly when a key names no field or the validator refuses *)
+Theorem C18_decode_keys : forall fl u seen,
+  Nat.eqb (snd (decode_map fl u seen)) 0 = settings_accepted_b fl u /\
+  fst (decode_map fl u seen) = overlay fl u seen.
+Proof. exact (fun fl u seen => conj (decode_unused_accepted fl u seen) (decode_value fl u seen)). Qed.
+Print Assumptions C18_decode_keys.
+
+Theorem C18_hook_fill_fails : forall fl u o n,
+  o_ffail (hook_oracle fl u o) n = negb (settings_accepted_b fl u) || o_ffail o n.
+Proof. exact hook_fill_fails. Qed.
+Print Assumptions C18_hook_fill_fails.
+
+(* every constructor shape x component form and every factory form: settings holding a key that
+   names no field of the constructor's config - for a constructor WITHOUT config (or with an empty
+   config struct): any setting at all - are a config error that reaches the caller as the error
+   result of the creation (Decode of the component / of the factory), and nothing is constructed *)
+Theorem C18_settings_rejected : forall sh empty o s sec u,
+  section_ok_b sec = true ->
+  settings_accepted_b (decode_target sh empty) u = false ->
+  (exists s1 evs n, create_by_settings sh empty o s sec u = inr (s1, evs, OErr (EFill n)) /\ no_construction evs = true) /\
+  (forall we named, exists s1 evs n,
+      factory_by_settings sh empty we named o s sec u = inr (s1, evs, CrErr (EFill n)) /\ no_construction evs = true).
+Proof. exact settings_rejected_creation. Qed.
+Print Assumptions C18_settings_rejected.
+
+Theorem C18_noconfig_accepts_no_setting : forall sh empty u,
+  sh_cfg sh = NoCfg -> settings_accepted_b (decode_target sh empty) u = true -> u = no_settings.
+Proof. exact nocfg_accepts_only_empty. Qed.
+Print Assumptions C18_noconfig_accepts_no_setting.
+
+(* a product that IS created through a section was built from the registered default overlaid
+   by the section's settings (field by field: C18_overlay_fields), and the settings were acceptable *)
+Theorem C18_settings_new_config : forall sh empty o s sec u s1 ev p,
+  create_by_settings sh empty o s sec u = inr (s1, ev, OOk p) ->
+  p_arg p = settings_arg sh (decode_target sh empty) u o s /\
+  settings_accepted_b (decode_target sh empty) u = true.
+Proof. exact settings_new_config. Qed.
+Print Assumptions C18_settings_new_config.
+
+(* factory form: per call for plugin constructors, the creation's for factory constructors *)
+Theorem C18_settings_factory_config : forall sh empty we named o s0 sec u s1 cev f s s2 ev p,
+  factory_by_settings sh empty we named o s0 sec u = inr (s1, cev, CrOk f) ->
+  call_factory sh we true (hook_oracle (decode_target sh empty) u o) s f = (s2, ev, OOk p) ->
+  p_arg p = settings_arg sh (decode_target sh empty) u o (match sh_ret sh with RPlugin => s | RFactory => s0 end).
+Proof. exact settings_factory_config. Qed.
+Print Assumptions C18_settings_factory_config.
+
+Theorem C18_overlay_fields : forall u d,
+  va (overlay FldABC u d) = or_else (set_a u) (va d) /\
+  vb (overlay FldABC u d) = or_else (set_b u) (vb d) /\
+  vc (overlay FldABC u d) = or_else (set_c u) (vc d).
+Proof. exact overlay_fields. Qed.
+Print Assumptions C18_overlay_fields.
+
+(* non-vacuity: {type: x, zz: 1} for a constructor without config is refused, {type: x} accepted;
+   {type: x, b: 7} for a Cfg constructor gives the default with b = 7; a fill that skips the empty
+   struct (accepts every key) is told apart by the specification *)
+Example C18_settings_examples :
+  let nocfg := mkShape RPlugin NoCfg true false DefNone TImpl false in
+  let withcfg := mkShape RPlugin CPtr true false DefVal TImpl false in
+  let o := mkOracle (fun n => mkV 100 200 0) (fun _ v => v) (fun _ => false) (fun _ => false) (fun _ => false) in
+  let sec := mkSec FStrMap [TkName true; TkAbsent; TkAbsent] false in
+  settings_accepted_b (decode_target nocfg false) (mkSet None None None 1) = false /\
+  settings_accepted_b (decode_target nocfg false) (mkSet None (Some 7%N) None 0) = false /\
+  settings_accepted_b (decode_target nocfg false) no_settings = true /\
+  settings_accepted_b (decode_target withcfg true) (mkSet None (Some 7%N) None 0) = false /\
+  create_by_settings nocfg false o st0 sec (mkSet None None None 1) = inr (mkSt 0 0 1 0 0, [EvFill 0 FTEmpty vzero], OErr (EFill 0)) /\
+  create_by_settings nocfg false o st0 sec no_settings = inr (mkSt 0 0 1 1 0, [EvFill 0 FTEmpty vzero; EvCtor 0 ANone], OOk (mkProd 0 ANone None)) /\
+  create_by_settings withcfg false o st0 sec (mkSet None (Some 7%N) None 0) =
+    inr (mkSt 1 1 1 1 0, [EvDefault 0; EvFill 0 (FTConf 0) (mkV 100 200 0); EvCtor 0 (AConf (mkConf 0 (mkV 100 7 0)))],
+         OOk (mkProd 0 (AConf (mkConf 0 (mkV 100 7 0))) None)).
 Proof. vm_compute. repeat split. Qed.
